@@ -115,3 +115,59 @@ pub fn parse_opts(d: &dyn Dialect, sql: &str, unescape: bool, trailing: bool, li
     if let Some(l) = limit { p = p.with_recursion_limit(l); }
     p.try_with_sql(sql)?.parse_statements()
 }
+
+use serde_json::{json, Value};
+use sqlparser::tokenizer::Whitespace;
+
+/// Canonical JSON form of a token (shared by all correspondence drivers).
+pub fn tok_json(t: &Token) -> Value {
+    macro_rules! strk { ($k:expr, $s:expr) => { json!({"k":"Str","kind":$k,"s":$s}) }; }
+    match t {
+        Token::EOF => json!({"k":"EOF"}),
+        Token::Word(w) => json!({"k":"Word","v":w.value,"q":w.quote_style.map(|c| c.to_string()),"kw":format!("{:?}", w.keyword)}),
+        Token::Number(s, l) => json!({"k":"Number","s":s,"long":l}),
+        Token::Char(c) => json!({"k":"Char","c":c.to_string()}),
+        Token::SingleQuotedString(s) => strk!("KSingle", s),
+        Token::DoubleQuotedString(s) => strk!("KDouble", s),
+        Token::TripleSingleQuotedString(s) => strk!("KTripleSingle", s),
+        Token::TripleDoubleQuotedString(s) => strk!("KTripleDouble", s),
+        Token::SingleQuotedByteStringLiteral(s) => strk!("KByteSingle", s),
+        Token::DoubleQuotedByteStringLiteral(s) => strk!("KByteDouble", s),
+        Token::TripleSingleQuotedByteStringLiteral(s) => strk!("KTripleByteSingle", s),
+        Token::TripleDoubleQuotedByteStringLiteral(s) => strk!("KTripleByteDouble", s),
+        Token::SingleQuotedRawStringLiteral(s) => strk!("KRawSingle", s),
+        Token::DoubleQuotedRawStringLiteral(s) => strk!("KRawDouble", s),
+        Token::TripleSingleQuotedRawStringLiteral(s) => strk!("KTripleRawSingle", s),
+        Token::TripleDoubleQuotedRawStringLiteral(s) => strk!("KTripleRawDouble", s),
+        Token::NationalStringLiteral(s) => strk!("KNational", s),
+        Token::EscapedStringLiteral(s) => strk!("KEscaped", s),
+        Token::UnicodeStringLiteral(s) => strk!("KUnicode", s),
+        Token::HexStringLiteral(s) => strk!("KHex", s),
+        Token::DollarQuotedString(d) => json!({"k":"Dollar","v":d.value,"tag":d.tag}),
+        Token::Whitespace(w) => match w {
+            Whitespace::Space => json!({"k":"Ws","w":"Space"}),
+            Whitespace::Newline => json!({"k":"Ws","w":"Newline"}),
+            Whitespace::Tab => json!({"k":"Ws","w":"Tab"}),
+            Whitespace::SingleLineComment { comment, prefix } => json!({"k":"Ws","w":"Line","prefix":prefix,"comment":comment}),
+            Whitespace::MultiLineComment(s) => json!({"k":"Ws","w":"Block","s":s}),
+        },
+        Token::Placeholder(s) => json!({"k":"Placeholder","s":s}),
+        Token::CustomBinaryOperator(s) => json!({"k":"Custom","s":s}),
+        other => json!({"k":"Fix","f":format!("{:?}", other)}),
+    }
+}
+
+/// Tokenize and describe the outcome: tokens with locations, or the error (with the tokens
+/// produced before it), or a panic.
+pub fn lex_outcome(d: &dyn Dialect, sql: &str, unescape: bool) -> Value {
+    let r = std::panic::catch_unwind(std::panic::AssertUnwindSafe(|| {
+        let mut buf = vec![];
+        let r = Tokenizer::new(d, sql).with_unescape(unescape).tokenize_with_location_into_buf(&mut buf);
+        let toks: Vec<Value> = buf.iter().map(|t| json!([tok_json(&t.token), t.location.line, t.location.column])).collect();
+        match r {
+            Ok(()) => json!({"ok": toks}),
+            Err(e) => json!({"err": {"msg": e.message, "line": e.location.line, "col": e.location.column}, "before": toks}),
+        }
+    }));
+    r.unwrap_or_else(|e| json!({"panic": panic_msg(e)}))
+}
